@@ -10,11 +10,15 @@ import (
 	"os"
 	"path/filepath"
 	"runtime/debug"
+	"strconv"
 	"strings"
 	"time"
 
+	"github.com/lindb/common/pkg/ltoml"
+	commontimeutil "github.com/lindb/common/pkg/timeutil"
 	protoMetricsV1 "github.com/lindb/common/proto/gen/v1/linmetrics"
 
+	"github.com/lindb/lindb/config"
 	"github.com/lindb/lindb/kv"
 	"github.com/lindb/lindb/models"
 	"github.com/lindb/lindb/pkg/compress"
@@ -71,6 +75,66 @@ type node struct {
 	destroyed bool
 	// recovered from an image whose log had been destroyed: the node opened a new, empty log
 	freshLog bool
+	cancel   context.CancelFunc
+}
+
+// manager mode: the partition is created and recovered by the REAL write ahead log manager (replica/wal_manager.go,
+// wal.go: directory layout <wal>/<database>/<shard>/<family time>/<leader>, Recovery() walks it and rebuilds the
+// replicators of every partition from the consumer groups of its log) on a FOLLOWER-side node: this node is nodeSelf,
+// the leader of the family log is node 1.  Entries arrive through Partition.ReplicaLog (what the leader's stream
+// delivers), the local replicator applies them under the leader's sequence key.
+var (
+	nodeViaMgr bool
+	nodeSelf   = models.NodeID(1)
+)
+
+func nodeGroup() string { return strconv.Itoa(int(nodeSelf)) }
+
+// nodeQueueDir: the directory of the log queue under the node directory
+func nodeQueueDir(dir string) string {
+	if !nodeViaMgr {
+		return filepath.Join(dir, "wal")
+	}
+	return filepath.Join(dir, "wal", "db", "1", commontimeutil.FormatTimestamp(nodeFamilyStart, commontimeutil.DataTimeFormat4), "1")
+}
+
+func (n *node) openLog() error {
+	if !nodeViaMgr {
+		var err error
+		n.log, err = queue.NewFanOutQueue(filepath.Join(n.dir, "wal"), 0)
+		if err != nil {
+			return err
+		}
+		n.gate = &gatedFamily{DataFamily: n.family}
+		n.part = replica.NewPartition(context.Background(), n.shard, n.gate, 1, n.log, nil, fakeStateMgr{})
+		return n.part.BuildReplicaForLeader(1, []models.NodeID{1})
+	}
+	replica.VerifStepwise = true
+	ctx, cancel := context.WithCancel(context.Background())
+	n.cancel = cancel
+	mgr := replica.NewWriteAheadLogManager(ctx, config.WAL{Dir: filepath.Join(n.dir, "wal"),
+		RemoveTaskInterval: ltoml.Duration(24 * time.Hour)}, nodeSelf, n.engine, nil, fakeStateMgr{})
+	if err := mgr.Recovery(); err != nil {
+		return err
+	}
+	var err error
+	n.part, err = mgr.GetOrCreateLog("db").GetOrCreatePartition(models.ShardID(1), nodeFamilyStart, models.NodeID(1))
+	if err != nil {
+		return err
+	}
+	n.gate = &gatedFamily{DataFamily: n.family} // not in the partition's path in this mode
+	n.log = replica.VerifPartitionLog(n.part)
+	// what the storage node does when the shard state names it as a follower (a no-op for a recovered replicator)
+	return n.part.BuildReplicaForFollower(models.NodeID(1), nodeSelf)
+}
+
+// appendEntry: an entry reaches the log of the node -- written by the leader itself, or delivered to the follower
+func (n *node) appendEntry(seq int, msg []byte) error {
+	if !nodeViaMgr {
+		return n.part.WriteLog(msg)
+	}
+	_, err := n.part.ReplicaLog(int64(seq), msg)
+	return err
 }
 
 func openNode(dir string) (*node, error) {
@@ -98,13 +162,7 @@ func openNode(dir string) (*node, error) {
 	if err != nil {
 		return nil, err
 	}
-	n.log, err = queue.NewFanOutQueue(filepath.Join(dir, "wal"), 0)
-	if err != nil {
-		return nil, err
-	}
-	n.gate = &gatedFamily{DataFamily: n.family}
-	n.part = replica.NewPartition(context.Background(), n.shard, n.gate, 1, n.log, nil, fakeStateMgr{})
-	if err := n.part.BuildReplicaForLeader(1, []models.NodeID{1}); err != nil {
+	if err := n.openLog(); err != nil {
 		return nil, err
 	}
 	return n, nil
@@ -118,6 +176,9 @@ func (n *node) close() {
 	if !n.destroyed {
 		n.part.Stop()
 		_ = n.part.Close()
+	}
+	if n.cancel != nil {
+		n.cancel()
 	}
 	n.engine.Close()
 }
@@ -164,7 +225,7 @@ func (n *node) projData() trace.F {
 }
 
 func (n *node) proj(names []string) trace.F {
-	g, _ := n.log.GetOrCreateConsumerGroup("1")
+	g, _ := n.log.GetOrCreateConsumerGroup(nodeGroup())
 	st := n.family.GetState()
 	fseq, dseq := int64(-1), int64(-1)
 	if v, ok := st.ReplicaSequences[1]; ok {
@@ -256,8 +317,8 @@ func (r *nodeRun) snapshot(label string) {
 	if err := copyWAL(filepath.Join(r.n.dir, "wal"), filepath.Join(d, "wal")); err != nil {
 		return
 	}
-	g, _ := r.n.log.GetOrCreateConsumerGroup("1")
-	cg, _ := os.ReadFile(filepath.Join(d, "wal", "cg", "1", "0.bat"))
+	g, _ := r.n.log.GetOrCreateConsumerGroup(nodeGroup())
+	cg, _ := os.ReadFile(filepath.Join(nodeQueueDir(d), "cg", nodeGroup(), "0.bat"))
 	r.points = append(r.points, nodePoint{dir: d, lineN: len(r.lines), label: label, gcons: g.ConsumedSeq(), gack: g.AcknowledgedSeq(), cgMeta: cg})
 }
 
@@ -279,13 +340,13 @@ func (r *nodeRun) step(ev string, f trace.F, fn func()) {
 }
 
 func (r *nodeRun) replicaStep() bool {
-	g, _ := r.n.log.GetOrCreateConsumerGroup("1")
+	g, _ := r.n.log.GetOrCreateConsumerGroup(nodeGroup())
 	if g.Pending() <= 0 {
 		return false
 	}
 	r.step("ReplicaStep", trace.F{}, func() {
 		seq := int(g.ConsumedSeq()) + 1
-		replica.VerifReplicaRound(r.n.part, 1)
+		replica.VerifReplicaRound(r.n.part, nodeSelf)
 		// the metadata goroutine assigns the id asynchronously: wait until the name resolves
 		// (it never will if the entry was rejected as already persisted and its name was lost)
 		if seq >= 0 && seq < len(r.names) && r.names[seq] != "bad" {
@@ -303,7 +364,7 @@ func (r *nodeRun) replicaStep() bool {
 // replicaRoundWithFlush: one round of the replicator with the flush job of the engine running inside it,
 // either between ValidateSequence and WriteRows or between WriteRows and CommitSequence
 func (r *nodeRun) replicaRoundWithFlush(afterWrite bool, job func()) bool {
-	g, _ := r.n.log.GetOrCreateConsumerGroup("1")
+	g, _ := r.n.log.GetOrCreateConsumerGroup(nodeGroup())
 	if g.Pending() <= 0 {
 		return false
 	}
@@ -323,7 +384,7 @@ func (r *nodeRun) replicaRoundWithFlush(afterWrite bool, job func()) bool {
 			r.rec.Emit("RWrite", trace.F{})
 		}
 	}
-	replica.VerifReplicaRound(r.n.part, 1)
+	replica.VerifReplicaRound(r.n.part, nodeSelf)
 	r.n.gate.before, r.n.gate.after = nil, nil
 	if !wrote {
 		// the entry was rejected by ValidateSequence: nothing written, the job did not run
@@ -539,7 +600,7 @@ func nodeHistory(rec *trace.Recorder, dir string, rng *rand.Rand, h int, image, 
 			}
 			seq := len(run.names)
 			run.step("Append", trace.F{"name": name}, func() {
-				if err := n.part.WriteLog(nodeMessage(name, seq)); err != nil {
+				if err := n.appendEntry(seq, nodeMessage(name, seq)); err != nil {
 					rec.Emit("Error", trace.F{"op": "WriteLog", "err": err.Error()})
 				}
 			})
@@ -549,7 +610,7 @@ func nodeHistory(rec *trace.Recorder, dir string, rng *rand.Rand, h int, image, 
 			if run.replicaStep() {
 				script = append(script, "replica")
 			}
-		case c < 65:
+		case c < 65 && !nodeViaMgr:
 			// the flush job falls INSIDE a round of the replicator (different goroutines in a node)
 			afterWrite := rng.Intn(2) == 0
 			if run.replicaRoundWithFlush(afterWrite, func() {
@@ -567,7 +628,7 @@ func nodeHistory(rec *trace.Recorder, dir string, rng *rand.Rand, h int, image, 
 					if rng.Intn(2) == 0 && len(run.names) < 8 {
 						name := nodeNames[rng.Intn(len(nodeNames))]
 						seq := len(run.names)
-						run.step("Append", trace.F{"name": name}, func() { _ = n.part.WriteLog(nodeMessage(name, seq)) })
+						run.step("Append", trace.F{"name": name}, func() { _ = n.appendEntry(seq, nodeMessage(name, seq)) })
 						run.names = append(run.names, name)
 					} else {
 						run.replicaStep()
@@ -585,7 +646,7 @@ func nodeHistory(rec *trace.Recorder, dir string, rng *rand.Rand, h int, image, 
 			}
 			run.familyFlush(w)
 			script = append(script, fmt.Sprintf("flushjob(racing=%v)", racing))
-		case c >= 96:
+		case c >= 96 && !nodeViaMgr:
 			// the WAL GC task looks at the partition of this (long expired) family: Sync, GC, and if no group has
 			// data the log is destroyed as writeAheadLog.destroy does (stop, close, remove the directory)
 			expired := n.part.IsExpire()
@@ -655,7 +716,7 @@ func nodeHistory(rec *trace.Recorder, dir string, rng *rand.Rand, h int, image, 
 			dir = p.dir + "-stale"
 			_ = kvwrap.CopyDir(filepath.Join(p.dir, "data"), filepath.Join(dir, "data"))
 			_ = copyWAL(filepath.Join(p.dir, "wal"), filepath.Join(dir, "wal"))
-			_ = os.WriteFile(filepath.Join(dir, "wal", "cg", "1", "0.bat"), stale.cgMeta, 0o644)
+			_ = os.WriteFile(filepath.Join(nodeQueueDir(dir), "cg", nodeGroup(), "0.bat"), stale.cgMeta, 0o644)
 			rec.Emit("LogRollback", trace.F{"gcons": stale.gcons, "gack": stale.gack})
 			defer os.RemoveAll(dir)
 		}
@@ -720,7 +781,11 @@ func nodeMain(args []string) int {
 	ni := fs.Int("images", 5, "histories whose every step (and the commit/ack gap) is imaged and recovered")
 	nl := fs.Int("late", 0, "histories with a late write after the log of the expired family was destroyed")
 	scratch := fs.String("scratch", "", "scratch directory")
+	mgr := fs.Bool("mgr", false, "follower-side node whose partition is created and recovered by the write ahead log manager")
 	_ = fs.Parse(args)
+	if *mgr {
+		nodeViaMgr, nodeSelf = true, models.NodeID(2)
+	}
 	if *scratch == "" {
 		d, _ := os.MkdirTemp("", "vdrive-node-")
 		*scratch = d
